@@ -81,6 +81,10 @@ def translate(repo=None):
     stv, strows = storagebody.emit(repo)
     ch1 = C.write_if_changed(os.path.join(C.GEN, "StorageSrc.v"), stv) or ch1
     data["storage_src"] = [list(r) for r in strows]
+    import bodypin
+    bv, brows = bodypin.emit(repo)
+    ch1 = C.write_if_changed(os.path.join(C.GEN, "BodySrc.v"), bv) or ch1
+    data["body_src"] = brows
     cdata = uom2coq.tables_json(ctab)
     cdata["reading_stats"] = crstats
     data["custom"] = cdata
